@@ -337,7 +337,7 @@ pub fn plant_file(path: &Path, data: &[u8], mode: u32) {
 /// Creates a private source file for set/put outside any cache directory's namespace of keys
 /// (in `dir`, created if needed), written in chunks through the shim.
 pub fn make_source(dir: &Path, tag: &str, data: &[u8]) -> PathBuf {
-    let path = dir.join(format!("src-{}-{}", tag, SCRATCH_COUNTER.fetch_add(1, std::sync::atomic::Ordering::Relaxed)));
+    let path = dir.join(format!("src-{}-{}-{}", tag, std::process::id(), SCRATCH_COUNTER.fetch_add(1, std::sync::atomic::Ordering::Relaxed)));
     crate::shim::bypass(|| {
         std::fs::create_dir_all(dir).unwrap();
         let mut f = std::fs::File::create(&path).unwrap();
